@@ -166,8 +166,25 @@ let handle line =
         | [("v" | "vd"); st; dir; doc] ->
             PMdVerify ({ c_bf = default_bfmt; c_enc = EncDefault; c_dry = false; c_exts = []; c_noiter = false }, st = "1", str_of_hex dir, str_of_hex doc)
         | _ -> failwith ("op " ^ o) in
-      let outs = prun world0 (List.map parse_op (String.split_on_char ';' ops)) in
-      String.concat "|" (List.map (function
+      (* deferred iterators: "Ic,K,h,bf" obtains an iterator (no effect in the model: the sequence is computed when it
+         is ranged over), "Ir,K,brk" ranges over it -- the model runs the iterator walk at that point of the history *)
+      let tbl = Hashtbl.create 8 in
+      let raw = String.split_on_char ';' ops in
+      let is_ic o = String.length o > 3 && String.sub o 0 3 = "Ic," in
+      let subst o =
+        match String.split_on_char ',' o with
+        | "Ic" :: k :: rest -> Hashtbl.replace tbl k rest; o
+        | ["Ir"; k; brk] -> "I," ^ String.concat "," (Hashtbl.find tbl k) ^ "," ^ brk
+        | _ -> o in
+      let raw = List.map subst raw in
+      let outs0 = prun world0 (List.map parse_op (List.filter (fun o -> not (is_ic o)) raw)) in
+      let rec weave raw outs = match raw, outs with
+        | [], _ -> []
+        | o :: r, _ when is_ic o -> None :: weave r outs
+        | _ :: r, x :: xs -> Some x :: weave r xs
+        | _ :: _, [] -> [] in
+      let outs = weave raw outs0 in
+      String.concat "|" (List.map (function None -> "c" | Some x -> (match x with
         | OHandle h -> "h" ^ string_of_int (int_of_nat h)
         | OOutput (cs, r) -> res_str r ^ " " ^ chunks_str cs
         | OWalk (vs, r) -> res_str r ^ " " ^ (match vs with [] -> "-" | _ -> String.concat ";" (List.map visit_str vs))
@@ -177,7 +194,7 @@ let handle line =
               | KFile true -> "e:" ^ hex_of_str p
               | KFile false -> "f:" ^ hex_of_str p) f) in
             res_str r ^ " " ^ chunks_str cs ^ " " ^ (match ents with [] -> "-" | _ -> String.concat "+" ents)
-        | OBad -> "bad") outs)
+        | OBad -> "bad")) outs)
   | ["specwalk"; ld; li; md; mi; items] ->
       let f = List.map trie_of (forest_of_items (items_of items) []) in
       let vs = spec_visits (bf_of ld li md mi) f in
